@@ -141,8 +141,27 @@ def laws(ctx):
         live = a.copy()
         rew = scenes.rewrap(a)
         e0 = sky_diff_units(c0, live, rew, px, py)
+        # the corrected WCS handed to the new corrector is caller-owned: it must not change when the
+        # new corrector is corrected, and replaying from it must give the same result again
+        src_before = np.array(c0.world_to_tanp(*a.det_to_world(px, py)), dtype=float)
+        src_wcs_before = (np.array(a.wcs(px, py), dtype=float) if jw
+                          else np.array(a.wcs.all_pix2world(px, py, 0), dtype=float))
+        osnap = snapshot_orig(rew)
         live.set_correction(f2.M.tolist(), f2.t.tolist())
         rew.set_correction(f2.M.tolist(), f2.t.tolist())
+        src_after = np.array(c0.world_to_tanp(*a.det_to_world(px, py)), dtype=float)
+        src_wcs_after = (np.array(a.wcs(px, py), dtype=float) if jw
+                         else np.array(a.wcs.all_pix2world(px, py, 0), dtype=float))
+        if not (np.array_equal(src_before, src_after) and np.array_equal(src_wcs_before, src_wcs_after)):
+            fail('correcting a re-wrapped corrector changed the WCS object it was built from',
+                 moved=float(np.max(np.abs(src_before - src_after))))
+        if snapshot_orig(rew) != osnap:
+            fail('original_wcs of the re-wrapped corrector changed when it was corrected')
+        rew2 = scenes.rewrap(a)
+        rew2.set_correction(f2.M.tolist(), f2.t.tolist())
+        if sky_diff_units(c0, rew, rew2, px, py) > 0:
+            fail('replaying the same correction from the same corrected WCS gives a different result',
+                 err=sky_diff_units(c0, rew, rew2, px, py))
         e = sky_diff_units(c0, live, rew, px, py)
         tol = tol0 * 2
         if e0 > tol or e > tol:
